@@ -40,7 +40,7 @@ func (P *Prog) recDefs(reveal func(name string) bool, text string) string {
 			done[n] = true
 			changed = true
 			if _, ok := P.recCache[n]; !ok {
-				P.recCache[n] = P.buildRecDef(P.specs.SpecFns[n])
+				P.buildRecDefLocked(P.specs.SpecFns[n])
 			}
 		}
 	}
@@ -93,7 +93,51 @@ func (P *Prog) recDefs(reveal func(name string) bool, text string) string {
 	return b.String()
 }
 
-func (P *Prog) buildRecDef(sf *SpecFunc) string {
+// ensureRecDef builds the SMT definition of an opaque/rec spec function on first use.
+func (P *Prog) ensureRecDef(sf *SpecFunc) {
+	P.mu.Lock()
+	defer P.mu.Unlock()
+	if P.recCache == nil {
+		P.recCache = map[string]string{}
+	}
+	if _, ok := P.recCache[sf.Name]; ok || P.recBuilding[sf.Name] {
+		return
+	}
+	P.buildRecDefLocked(sf)
+}
+
+type heapParam struct{ key, sort string }
+
+func (P *Prog) buildRecDefLocked(sf *SpecFunc) {
+	if P.recBuilding == nil {
+		P.recBuilding = map[string]bool{}
+	}
+	if P.recHeapKeys == nil {
+		P.recHeapKeys = map[string][]heapParam{}
+	}
+	P.recBuilding[sf.Name] = true
+	defer delete(P.recBuilding, sf.Name)
+	P.mu.Unlock() // evaluation may recurse into ensureRecDef of other functions
+	defer P.mu.Lock()
+	// pass 1 discovers the heaps the body reads; pass 2 builds the text with them as parameters
+	def := ""
+	for pass := 0; pass < 2; pass++ {
+		d, heaps := P.buildRecDef(sf)
+		def = d
+		P.mu.Lock()
+		changed := len(heaps) != len(P.recHeapKeys[sf.Name])
+		P.recHeapKeys[sf.Name] = heaps
+		P.mu.Unlock()
+		if !changed {
+			break
+		}
+	}
+	P.mu.Lock()
+	P.recCache[sf.Name] = def
+	P.mu.Unlock()
+}
+
+func (P *Prog) buildRecDef(sf *SpecFunc) (string, []heapParam) {
 	x := &Exec{P: P, key: "spec." + sf.Name, usedExt: map[string]bool{}, inlined: map[string]bool{}, usedContracts: map[string]bool{}}
 	st := &State{declSet: map[string]bool{}, heaps: map[string]string{}, hsort: map[string]string{}, cells: map[*Cell]Val{},
 		written: map[string]bool{}, ghost: map[string]string{}, boolDef: map[string]string{}, factSet: map[string]bool{}}
@@ -138,53 +182,40 @@ func (P *Prog) buildRecDef(sf *SpecFunc) string {
 		ret = "(_ FloatingPoint 11 53)"
 	}
 	body := x.evalSpec(sf.Body, env)
-	if len(st.heaps) > 0 {
-		panic(fmt.Sprintf("opaque/rec spec function %s reads the heap; pass values explicitly", sf.Name))
+	// heaps read by the body become trailing parameters (passed the current heap at each use)
+	var heaps []heapParam
+	for _, k := range sortedKeys(st.heaps) {
+		heaps = append(heaps, heapParam{k, st.hsort[k]})
+		binders = append(binders, "("+heapInit(k)+" "+st.hsort[k]+")")
+		sorts = append(sorts, st.hsort[k])
+		args = append(args, heapInit(k))
 	}
 	app := "(" + sf.Name + " " + strings.Join(args, " ") + ")"
+	if len(args) == 0 {
+		app = sf.Name
+	}
 	decl := fmt.Sprintf("(declare-fun %s (%s) %s)", sf.Name, strings.Join(sorts, " "), ret)
 	if sf.Rec {
 		// recursive: no quantified axiom (it would unfold without bound); the definition is
 		// instantiated at the ground applications occurring in each obligation (see groundUnfold)
+		P.mu.Lock()
 		if P.recTemplates == nil {
 			P.recTemplates = map[string]*recTemplate{}
 		}
 		P.recTemplates[sf.Name] = &recTemplate{params: args, body: parseSexp(x.termOf(body))}
-		return decl
+		P.mu.Unlock()
+		return decl, heaps
 	}
 	ax := fmt.Sprintf("(assert (forall (%s) (! (= %s %s) :pattern (%s))))", strings.Join(binders, " "), app, x.termOf(body), app)
 	if isNonlinear(parseSexp(x.termOf(body))) {
+		P.mu.Lock()
 		if P.nonlinearDef == nil {
 			P.nonlinearDef = map[string]bool{}
 		}
 		P.nonlinearDef[sf.Name] = true
+		P.mu.Unlock()
 	}
-	return decl + "\n" + ax
-}
-
-// mentionsTransitively: the goal mentions the opaque function name directly, or through the
-// definition of another opaque function it mentions.
-func (P *Prog) mentionsTransitively(goal, name string) bool {
-	P.mu.Lock()
-	defer P.mu.Unlock()
-	seen := map[string]bool{}
-	var visit func(text string) bool
-	visit = func(text string) bool {
-		if containsSym(text, name) {
-			return true
-		}
-		for n, def := range P.recCache {
-			if seen[n] || !containsSym(text, n) {
-				continue
-			}
-			seen[n] = true
-			if visit(def) {
-				return true
-			}
-		}
-		return false
-	}
-	return visit(goal)
+	return decl + "\n" + ax, heaps
 }
 
 type recTemplate struct {
@@ -345,4 +376,28 @@ func (P *Prog) isNonlinearDef(name string) bool {
 	P.mu.Lock()
 	defer P.mu.Unlock()
 	return P.nonlinearDef[name]
+}
+// mentionsTransitively: the goal mentions the opaque function name directly, or through the
+// definition of another opaque function it mentions.
+func (P *Prog) mentionsTransitively(goal, name string) bool {
+	P.mu.Lock()
+	defer P.mu.Unlock()
+	seen := map[string]bool{}
+	var visit func(text string) bool
+	visit = func(text string) bool {
+		if containsSym(text, name) {
+			return true
+		}
+		for n, def := range P.recCache {
+			if seen[n] || !containsSym(text, n) {
+				continue
+			}
+			seen[n] = true
+			if visit(def) {
+				return true
+			}
+		}
+		return false
+	}
+	return visit(goal)
 }
